@@ -13,5 +13,8 @@ git merge --no-ff -m "merge $N" agent/$N > /tmp/merge_$N.log 2>&1 || {
 echo "verif merged: $(git log --oneline -1)"
 cd /repo
 for c in $(git log --reverse --format=%H main..agent/$N 2>/dev/null); do
-  git cherry-pick $c > /tmp/cp_$N.log 2>&1 && echo "repo picked: $(git log --oneline -1 | cut -c1-120)" || { echo "CHERRY-PICK FAILED $c"; cat /tmp/cp_$N.log | tail -5; exit 1; }
+  # only the library sources of the worker's commit (workers sometimes commit their build directory with `git add -A`)
+  git diff $c^ $c -- src include tests cmake CMakeLists.txt > /tmp/cp_$N.patch
+  if [ ! -s /tmp/cp_$N.patch ]; then echo "repo: commit $c touches no source, skipped"; continue; fi
+  git apply --index /tmp/cp_$N.patch && git commit -q -m "$(git log -1 --format=%B $c)" && echo "repo picked: $(git log --oneline -1 | cut -c1-120)" || { echo "APPLY FAILED $c"; exit 1; }
 done
